@@ -317,6 +317,10 @@ class Reader:
 
         if sign not in ["+", "-"]:
             raise dns.exception.SyntaxError(f"invalid offset sign {sign}")
+        if iwidth > 65535:
+            # Nothing in a DNS record can be that wide, and an enormous width
+            # would otherwise exhaust memory when zero-filling.
+            raise dns.exception.SyntaxError(f"invalid width {width}")
         if base not in ["d", "o", "x", "X", "n", "N"]:
             raise dns.exception.SyntaxError(f"invalid type {base}")
 
